@@ -1,10 +1,10 @@
 CONSTANTS
-  Workers <- Workers_then
-  NTs <- NTs_then
-  ThreadNames <- Threads_then
+  Workers <- MCWorkers
+  NTs <- MCNTs
+  ThreadNames <- MCThreads
   WyFix = FALSE
   AllowSpurious = FALSE
-INIT Init_then
+INIT MCInit
 NEXT Next
 CHECK_DEADLOCK TRUE
 INVARIANTS TypeOK NoBad FuncOnce ReadyImpliesRan GetsAgree DeallocOnce RefsSane ThenAfterReady TsWaitImpliesReady CountersSane AtEnd WhenAllReady WhenAnyReady CombFOnce
